@@ -293,9 +293,9 @@ fn sorted_pairs(mut v: Vec<(Entity, String)>) -> String {
     format!("[{}]", s.join(";"))
 }
 
-pub const PATHS: [&str; 18] = [
+pub const PATHS: [&str; 19] = [
     "iter", "mut", "prepared", "prepared_mut", "view", "view_mut", "prepared_view", "batched", "one", "one_mut", "sat",
-    "eref", "many", "mut_batched", "many_w", "many_v", "many_vb", "many_pv",
+    "eref", "many", "mut_batched", "many_w", "many_v", "many_vb", "many_pv", "arch",
 ];
 
 #[allow(clippy::too_many_arguments)]
@@ -473,6 +473,28 @@ where
                 6 => many!(6),
                 _ => panic!("harness: many_* needs 2..=6 handles"),
             }
+        }
+        "arch" => {
+            // `Archetype::access::<Q>` / `satisfies::<Q>` / `has_dynamic` of every archetype
+            let tm = crate::world_engine::type_id_table_pub();
+            let mut v: Vec<(Vec<usize>, String)> = world
+                .archetypes()
+                .map(|a| {
+                    let mut ts: Vec<usize> = a.component_types().map(|t| *tm.get(&t).unwrap_or(&110)).collect();
+                    ts.sort();
+                    let acc = match a.access::<Q>() {
+                        None => "x",
+                        Some(hecs::Access::Iterate) => "0",
+                        Some(hecs::Access::Read) => "1",
+                        Some(hecs::Access::Write) => "2",
+                    };
+                    let sat = a.satisfies::<Q>();
+                    let dynamic_ok = a.component_types().all(|t| a.has_dynamic(t)) && !a.has_dynamic(std::any::TypeId::of::<u128>());
+                    (ts, format!("{}{}{}", acc, if sat == (acc != "x") { "" } else { "!sat" }, if dynamic_ok { "" } else { "!dyn" }))
+                })
+                .collect();
+            v.sort();
+            format!("aa=[{}]", v.iter().map(|(ts, a)| format!("{}:{}", show_nats(ts), a)).collect::<Vec<_>>().join(";"))
         }
         "sat" => match world.satisfies::<Q>(h) {
             Err(_) => "nosuch".into(),
